@@ -119,6 +119,37 @@ def double(ctx, method):
         classify(ctx, exc, "deny+vanish", method, f"faults={k.fault.fired[:3]}")
 
 
+@harness("C03.deny_twice", quick=[dict(method=m) for m in ("as_dict", "memory_full_info", "open_files")], thorough=[dict(method=m) for m in METHODS], timeout_ms=5000)
+def deny_twice(ctx, method):
+    """two separate accesses i < j refused (EACCES then EPERM)"""
+    k = build(ctx)
+    with k.installed():
+        p = psutil.Process(P)
+        k.fault.prefix = f"/proc/{P}"
+        k.naccess = 0
+        i = ctx.int("i", 0, 400)
+        j = ctx.int("j", 0, 400)
+        ctx.assume(j > i)
+        orig_access = k.access
+        k.fault.deny_at = i
+
+        def access(kind, path):
+            n_before = k.naccess
+            try:
+                return orig_access(kind, path)
+            finally:
+                if k.fault.fired and k.fault.deny_at is i and k.naccess > n_before and k.fault.fired[-1][0] == "deny":
+                    k.fault.deny_at, k.fault.deny_errno = j, errno.EPERM
+
+        k.access = access
+        try:
+            call(p, method)
+            exc = None
+        except Exception as e:  # noqa: BLE001
+            exc = e
+        classify(ctx, exc, "deny+deny", method, f"faults={k.fault.fired[:3]}")
+
+
 ATTRS = ["name", "cmdline", "cpu_times", "memory_info", "num_fds", "status", "exe", "username"]
 
 
